@@ -165,6 +165,13 @@ def run_model_and_steps(chk, prop, tier, pkey=None):
             chk.add_tlc(res, "YkConc5 config %s: next layers at hook grain vs 2 other threads (LinOK, DescentOK, Quiescent, Termination under WF)" % cfg)
             if not res.ok:
                 chk.error("YkConc5 model check %s did not pass (says nothing about the code): %s" % (cfg, tlc_tail(res, 12)))
+        # interior split (YkConc6): a full interior root is split by a border split below it, a second border split sees its parent change
+        # from P to P' while it waits for P's lock; new root; readers
+        for cfg in (["a", "b"] if tier == "quick" else ["a", "b", "c", "d"]):
+            res = tlc("MC_Conc6", "MC_Conc6_%s.cfg" % cfg, workers=8, timeout=1500)
+            chk.add_tlc(res, "YkConc6 config %s: interior split + new root, parent change under lock_parent, vs readers (LinOK, ParentOK, Quiescent, Termination under WF)" % cfg)
+            if not res.ok:
+                chk.error("YkConc6 model check %s did not pass (says nothing about the code): %s" % (cfg, tlc_tail(res, 12)))
         run_steps2(chk, prop, tier, pk)
         run_steps3(chk, prop, tier, pk)
         run_steps4(chk, prop, tier, pk)
